@@ -19,10 +19,11 @@ from sim.prng import stream
 PRISTINE = {"H": 0, "A": 0, "D": 5_000_000, "Dcount": 0, "R": 0, "G": "on", "Lg": "none"}
 
 TIERS = {
-    # batches, worlds per batch, targets per batch, real-layout worlds per batch, canary procs
-    "quick": {"batches": 3, "worlds": 16, "targets": 40, "real": 4, "canary": 16, "abort": 0.10, "resalt": 0.0},
-    "thorough": {"batches": 12, "worlds": 48, "targets": 64, "real": 16, "canary": 48, "abort": 0.15, "resalt": 0.05},
+    # batches, worlds per batch, targets per batch, real-layout worlds per batch, canary procs, census worlds
+    "quick": {"batches": 3, "worlds": 12, "targets": 40, "real": 3, "canary": 16, "abort": 0.10, "resalt": 0.0, "census": 3},
+    "thorough": {"batches": 12, "worlds": 48, "targets": 64, "real": 16, "canary": 48, "abort": 0.15, "resalt": 0.05, "census": 10},
 }
+CENSUS_CHUNK = 90
 
 
 def build_targets(seed: int, batch: int, n: int, base: list[dict]) -> dict:
@@ -33,6 +34,7 @@ def build_targets(seed: int, batch: int, n: int, base: list[dict]) -> dict:
     guard = 0
     while len(targets) < n and guard < 50 * n:
         guard += 1
+        sibling = None
         r = rng.random()
         if r < 0.40:
             b = rng.choice(base)
@@ -50,11 +52,17 @@ def build_targets(seed: int, batch: int, n: int, base: list[dict]) -> dict:
             origin = f"{b['id']}-stmt{k}"
             if text is None:
                 continue
+            sibling = (b["text"], b["id"])
         mode = rng.choices(["auto", "explicit", "empty", "absent"], [0.6, 0.15, 0.15, 0.10])[0]
         inp, out = workload.decl(mode, text, rng)
         mask = workload.swarm_mask(rng)
         tid = f"{batch}.{len(targets)}"
         targets[tid] = {"text": text, "inp": inp, "out": out, "mask": mask, "origin": origin, "decl": mode}
+        if sibling is not None and len(targets) < n:
+            # the program the variant was cut from, same traits: same predicate names, slightly different rules -
+            # what a stale process-wide cache keyed by name would confuse
+            tid = f"{batch}.{len(targets)}"
+            targets[tid] = {"text": sibling[0], "inp": "auto", "out": "auto", "mask": mask, "origin": sibling[1], "decl": "auto"}
     return targets
 
 
@@ -70,7 +78,7 @@ def build_world(seed: int, batch: int, w: int) -> dict:
         "Dcount": rng.choice([0, 0, 1, 17, 1000]),
         "R": rng.randrange(2**31),
         "G": rng.choice(["on", "on", "off", "collect"]),
-        "Lg": rng.choice(["none", "none", "debug", "critical"]),
+        "Lg": rng.choice(["none", "none", "debug", "info", "critical"]),
     }
 
 
@@ -105,6 +113,30 @@ def build_history(seed: int, batch: int, w: int, targets: dict, ref_steps: dict,
         ops.append({"op": kind, "t": t})
         done.append(t)
     return ops
+
+
+def build_census(seed: int, nworlds: int, programs: list[dict]) -> dict:
+    """every workload program once under `default` and `all` in every census world; each world runs
+    the programs in its own shuffled order, cut into several worker processes (= several histories)"""
+    targets = {}
+    for b in programs:
+        for mask, mn in ((workload.DEFAULT, "d"), (workload.ALL, "a")):
+            targets[f"c.{b['id']}.{mn}"] = {"text": b["text"], "inp": "auto", "out": "auto", "mask": mask, "origin": b["id"], "decl": "auto"}
+    jobs = {}
+    for w in range(nworlds):
+        world = dict(PRISTINE) if w == 0 else build_world(seed, "census", w)
+        order = list(targets)
+        stream(seed, "census", "order", w).shuffle(order)
+        for k in range(0, len(order), CENSUS_CHUNK):
+            part = order[k : k + CENSUS_CHUNK]
+            jobs[f"w{w}k{k // CENSUS_CHUNK}"] = {
+                "seed": seed,
+                "world": world,
+                "targets": {t: targets[t] for t in part},
+                "ops": [{"op": "opt", "t": t} for t in part],
+                "wall_s": 3000,
+            }
+    return {"b": "c", "targets": targets, "jobs": jobs, "ref_steps": {}}
 
 
 class Table:
@@ -265,12 +297,15 @@ def run(args) -> int:
         for bt in batches:
             ops = [{"op": "opt", "t": t, "lines": True} for t in bt["targets"]]
             jobs.append({"seed": seed, "world": dict(PRISTINE), "targets": bt["targets"], "ops": ops, "wall_s": 3000})
-        res = pool.run(jobs)
+        census = build_census(seed, cfg["census"], workload.load_all()) if cfg["census"] else None
+        cjobs = list(census["jobs"].items()) if census is not None else []
+        res = pool.run(jobs + [j for _, j in cjobs])
         check_results(res)
         pristine_fp = res[0]["events"][0]["fp"]
+        census_res = res[len(jobs) :]
         for bt, r in zip(batches, res):
             bt["ref_steps"] = {e["t"]: e.get("steps") for e in r["events"] if e.get("op") == "opt"}
-            table.add_events({"b": bt["b"], "w": 0, "world": dict(PRISTINE)}, r["events"], bt["targets"], pristine_fp)
+            table.add_events({"b": bt["b"], "w": 0, "world": dict(PRISTINE), "pristine": True}, r["events"], bt["targets"], pristine_fp)
             bt["jobs"] = {0: jobs[bt["b"]]}
         log(f"phase 1 done: {len(jobs)} pristine workers, {table.calls} calls, {timer.wall():.0f}s")
         # phase 2: all other worlds
@@ -301,17 +336,26 @@ def run(args) -> int:
                     meta.append((bt, w))
         res = pool.run(jobs)
         check_results(res)
+        for (key, job), r in zip(cjobs, census_res):
+            table.add_events(
+                {"b": "c", "w": key, "world": job["world"], "pristine": job["world"] == PRISTINE}, r["events"], census["targets"], pristine_fp
+            )
         for (bt, w), r, job in zip(meta, res, jobs):
             bt["jobs"][w] = job
-            table.add_events({"b": bt["b"], "w": w, "world": job["world"]}, r["events"], bt["targets"], pristine_fp)
+            table.add_events(
+                {"b": bt["b"], "w": w, "world": job["world"], "pristine": job["world"] == PRISTINE}, r["events"], bt["targets"], pristine_fp
+            )
         log(f"phase 2 done: {len(jobs)} workers, {table.calls} calls, {timer.wall():.0f}s")
+        batches_by_key = {str(bt["b"]): bt for bt in batches}
+        if census is not None:
+            batches_by_key["c"] = census
         all_targets = {}
-        for bt in batches:
+        for bt in batches_by_key.values():
             all_targets.update(bt["targets"])
         # oracle
         nrep = 0
         for tid in table.divergent():
-            bt = batches[int(tid.split(".")[0])]
+            bt = batches_by_key[tid.split(".")[0]]
             doc = minimize.c17_divergence(pool, seed, tid, bt, table)
             path = common.write_replay("C17", seed, nrep, doc)
             nrep += 1
@@ -320,7 +364,7 @@ def run(args) -> int:
                 notes.append(f"{len(table.divergent())} divergent targets in total; first 3 minimised")
                 break
         for wit in table.arg_viol[:3]:
-            bt = batches[wit["b"]]
+            bt = batches_by_key[str(wit["b"])]
             doc = minimize.c17_argument(pool, seed, wit, bt)
             path = common.write_replay("C17", seed, nrep, doc)
             nrep += 1
@@ -337,7 +381,7 @@ def run(args) -> int:
         # evidence
         multi_path = sum(1 for t, p in table.paths.items() if len(p) >= 2 and len(table.outcomes.get(t, {})) == 1)
         hist_len: dict = {}
-        for bt in batches:
+        for bt in batches_by_key.values():
             for job in bt["jobs"].values():
                 k = f"{(len(job['ops']) // 20) * 20}-{(len(job['ops']) // 20) * 20 + 19}"
                 hist_len[k] = hist_len.get(k, 0) + 1
@@ -357,7 +401,8 @@ def run(args) -> int:
                 }
             ],
             "worker_processes": pool.spawned,
-            "worlds": len({json.dumps(j["world"], sort_keys=True) for bt in batches for j in bt["jobs"].values()}),
+            "worlds": len({json.dumps(j["world"], sort_keys=True) for bt in batches_by_key.values() for j in bt["jobs"].values()}),
+            "census": {"programs": len(workload.load_all()), "worlds": cfg["census"], "trait_sets": ["default", "all"]},
             "distinct_order_fingerprints": len(table.fps),
             "targets": len(all_targets),
             "targets_with_two_or_more_path_digests_and_one_outcome": multi_path,
